@@ -23,6 +23,9 @@ type Prop struct {
 	MinObligations int   `json:"min_obligations"`
 	Bounded     []string `json:"bounded"` // function keys whose obligations are bounded (never counted as proved)
 	Sweep       []string `json:"sweep"`   // functions verified for safety only without a written contract (zero-annotation sweep)
+	// obligations (substring of the obligation name) that belong to ANOTHER property although they are
+	// generated from a function this property also depends on; they are decided under that property
+	OutOfScope []string `json:"out_of_scope"`
 }
 
 const ontoPrefix = "github.com/ontio/ontology/"
